@@ -18,12 +18,14 @@ case "$PROP" in
   *) ENGINES="maphist" ;;
 esac
 ENGINE=maphist
+rm -f "$W/extra-$PROP.jsonl"
 memprop() { case "$PROP" in C02|C03|C04|C17|C18) return 0 ;; *) return 1 ;; esac; }
 
 if [ $MIRI -eq 1 ]; then
   D="$W/miri-$PROP"; rm -rf "$D"; mkdir -p "$D"
   N=60; [ "$PROP" = "C04" ] && N=24
-  "$REL" "$PROP" --dump "$D" $N >/dev/null
+  VERIF_DUMP_SMALL=1 "$REL" "$PROP" --dump "$D" $((N * 3)) >/dev/null
+  ls "$D"/*.case 2>/dev/null | tail -n +$((N + 1)) | xargs -r rm -f
   cp "$VERIF_DIR"/corpus/$PROP/*.case "$D"/ 2>/dev/null
   LOG="$W/miri-$PROP.log"
   ( cd "$H" && MIRIFLAGS="-Zmiri-disable-isolation" CARGO_TARGET_DIR="$H/target-miri" timeout 3600 cargo +nightly miri run -p runner -- "$PROP" --replay-dir "$D" 40 ) >"$LOG" 2>&1
@@ -41,6 +43,7 @@ if [ $MIRI -eq 1 ]; then
   else
     grep "^replay-dir:" "$LOG" | sed 's/^/miri: /'
   fi
+  echo "{\"platform\":\"Miri (cargo +nightly miri run, replay of dumped generated cases)\",\"cases_started\":$(grep -c '^case: ' "$LOG"),\"completed\":$([ $rc -eq 0 ] && echo true || echo false)}" >> "$W/extra-$PROP.jsonl"
 fi
 
 fuzz_campaign() { # flags suffix
@@ -84,4 +87,13 @@ for ENGINE in $ENGINES; do
   if [ $FUZZ -eq 1 ]; then fuzz_campaign "" "$H/fuzz/target-a" "asan-a-$ENGINE"; fi
   if [ $FUZZO -eq 1 ]; then fuzz_campaign "-O" "$H/fuzz/target-O" "asan-O-$ENGINE"; fi
 done
+# attach what the extra platforms executed to the evidence file written by the runner
+python3 - "$VERIF_DIR/evidence/$PROP.json" "$W/extra-$PROP.jsonl" <<'PY'
+import json, sys, os
+ev, extra = sys.argv[1], sys.argv[2]
+if os.path.exists(ev) and os.path.exists(extra):
+    d = json.load(open(ev))
+    d.setdefault('coverage', {})['thorough_platforms'] = [json.loads(l) for l in open(extra) if l.strip()]
+    json.dump(d, open(ev, 'w'), indent=1)
+PY
 exit 0
